@@ -303,6 +303,35 @@ def gen_case(rng, tier, d=None, path=None, big=False):
                 mask_corners=bool(rng.random() < 0.5), pop_ids=(['p%d' % k for k in range(d)] if rng.random() < 0.5 else None),
                 grid_kinds=kinds, phi_kind=pk, overshoot=over, bits=bits)
 
+def sibling_case(rng, c):
+    """same call on a grid that shares length, end points, first and last interior point with the grid of `c` but differs in
+    between (what a cheap cache key / fingerprint of the grid would confuse), same sample sizes, fresh density"""
+    c2 = dict(c)
+    grids = []
+    for g in c['grids']:
+        g = np.array(g, dtype=float)
+        N = len(g)
+        if N >= 5:
+            h = g.copy()
+            for k in range(2, N - 2):
+                lo, hi = h[k - 1], g[k + 1]
+                t = float(rng.uniform(0.25, 0.75))
+                v = lo + t * (hi - lo)
+                if c.get('bits'):
+                    v = float(gen.round_sig(v, c['bits']))
+                if lo < v < hi and v != g[k]:
+                    h[k] = v
+            grids.append(h)
+        else:
+            grids.append(g)
+    if c['path'] == 'analytic' and c['d'] >= 2:
+        grids[1] = grids[0].copy()
+    c2['grids'] = grids
+    c2['phi'], c2['phi_kind'] = gen_phi(rng, [np.clip(g, 0, 1) for g in grids], c.get('bits') or 0)
+    c2['sibling'] = True
+    c2['after_grids'] = [[float(v) for v in g] for g in c['grids']]     # the call that came first (replayed with the case)
+    return c2
+
 def gen_props(rng, d, identity=None):
     if identity is None:
         identity = rng.random() < 0.2
@@ -335,6 +364,7 @@ def from_json(inp):
     if 'phi' in c: c['phi'] = arr(c['phi'])
     if 'psi' in c: c['psi'] = arr(c['psi'])
     if 'grids' in c: c['grids'] = [np.array(g, dtype=float) for g in c['grids']]
+    if c.get('after_grids'): c['after_grids'] = [[float(v) for v in g] for g in c['after_grids']]
     return c
 
 # =========================================================================== calling the implementation
@@ -410,6 +440,10 @@ def check_from_phi(chk, ctx, c, do_model=True):
     dadi = ctx['dadi']
     inp = small(c)
     d = c['d']; ns = list(c['ns']); grids = c['grids']; phi = np.asarray(c['phi'], dtype=float)
+    if c.get('after_grids'):
+        # the same call on the look-alike grid that preceded this one in the run (warms every per-grid cache)
+        g0 = [np.array(g, dtype=float) for g in c['after_grids']]
+        call_from_phi(dadi, dict(c, grids=g0, phi=np.ones([len(g) for g in g0])))
     res = call_from_phi(dadi, c, record=True)
     key = ('from_phi', d, c['path'], c.get('het'), bool(c.get('force')), c.get('overshoot'), c.get('phi_kind'), max(ns) >= 20)
     chk.l3(key)
@@ -682,6 +716,16 @@ def k_dbeta(chk, ctx, rng, count):
         except Exception as e:
             chk.fail('cached_dbeta:raises:%s' % type(e).__name__, 'cached_dbeta(%d, grid with over-shoot %r) raises %r' % (n, over, e), inp); continue
         chk.stat('dbeta_cache_miss' if miss else 'dbeta_cache_hit')
+        if it % 2 == 0 and N >= 5 and over is None:
+            # then a look-alike grid (same length, same first/last interior point): must get its own tables
+            h = g.copy()
+            for k in range(2, N - 2):
+                h[k] = float(gen.round_sig(h[k - 1] + float(rng.uniform(0.3, 0.7)) * (g[k + 1] - h[k - 1]), 20))
+            if np.all(np.diff(h) > 0):
+                g = h
+                inp = dict(kind='dbeta', n=n, grid=[float(v) for v in g], after_lookalike=True)
+                d1, d2 = SM.cached_dbeta(n, g)
+                chk.stat('dbeta_lookalike')
         out = drv.ask('dbeta %d %s' % (n, fmt_list(g)))
         if not out.startswith('ok '):
             chk.k_bad('cached_dbeta', inp, 'tables', out, None); continue
@@ -1047,7 +1091,7 @@ def run(chk, ctx):
     chk.rule = ('from_phi: dimension from %r, path from {semi-analytic, direct (force_direct), het_ascertained (xx/yy/zz), admix_props (rows = multiples of 1/16, '
                 'identity rows mixed in)}, sample sizes per population from {1, 2, max, uniform 1..max} with max %r (admix: 6/3/2), grids from {uniform, dadi '
                 'default_grid, quadratic, random} with %r points, coarsened to 12/16/20 significant bits or (12%%) full double precision, 15%% with an end point '
-                'moved outside [0,1] by 1e-16 / 1 ulp, densities from %r, mask_corners / pop_ids random; inbreeding: 1-3 dimensions, ploidy from {2,3,4,6,8}, '
+                'moved outside [0,1] by 1e-16 / 1 ulp, densities from %r, mask_corners / pop_ids random; every 4th call is repeated with the same sizes on a look-alike grid (same length, end points, first and last interior point, different nodes in between — what a per-grid cache could confuse); inbreeding: 1-3 dimensions, ploidy from {2,3,4,6,8}, '
                 'sample sizes multiples of the ploidy, F from {2^-6 … 0.9375, random, 1.0 (clamped)}, plus all-zero and mixed zero/non-zero F; refusals: every '
                 'guard of from_phi once per cycle; non-trivial = distinct (dimension, path, option, over-shoot, density kind, size class)'
                 % (sorted(set(DIMS_W[tier])), NMAX[tier], PTS[tier], PHI_KINDS))
@@ -1070,6 +1114,11 @@ def run(chk, ctx):
         check_from_phi(chk, ctx, c)
         if it % 3 == 0 and c['path'] in ('analytic', 'direct', 'het'):
             l3_metamorphic(chk, ctx, c)
+        if it % 4 == 1 and max(len(g) for g in c['grids']) >= 5:
+            # the same sizes on a look-alike grid right afterwards: stale per-grid caches would show here
+            c2 = sibling_case(rng, c)
+            check_from_phi(chk, ctx, c2)
+            chk.stat('sibling-grid')
     for d in (1, 2):                                  # sample size 40
         for path in ('analytic', 'direct'):
             c = gen_case(rng, tier, d=d, path=path, big=True)
